@@ -1409,6 +1409,42 @@ class Engine:
         s2, dv = self.new_dict(st, hint)
         return [Out("ok", s2, dv)]
 
+    def e_ListComp(self, node, st):
+        """[f(x) for x in xs] for a side-effect free f: a fresh list R with len(R) == len(xs) and R[i] == f(xs[i])"""
+        if len(node.generators) != 1 or node.generators[0].ifs or node.generators[0].is_async:
+            raise Unsupported("list comprehension with conditions / several generators")
+        g = node.generators[0]
+
+        def k(s, it):
+            if it.kind.tag == "list":
+                seq = self.list_seq(s, it)
+                ek = it.kind[1]
+            elif it.kind.tag == "seq":
+                seq = it.t
+                ek = it.kind[1]
+            else:
+                raise Unsupported("list comprehension over %s" % (it.kind,))
+            i = z3.Int(fresh_name("lc"))
+            rng = z3.And(i >= 0, i < z3.Length(seq))
+            base = s.assume(rng)
+            x = self.elem(ek, seq[i])
+            base = self.assume_valid_ref(base, x)
+            a = self.assign(base, g.target, x)
+            if len(a) != 1 or a[0].tag != "ok":
+                raise Unsupported("comprehension target")
+            from .calls import merged_value
+            try:
+                v = merged_value(self, node.elt, a[0].st)
+            except SpecError as e:
+                raise Unsupported("comprehension element may fail: %s" % e)
+            if v.kind.tag not in ("int", "bool", "str", "real", "ref"):
+                raise Unsupported("comprehension element of kind %s" % (v.kind,))
+            R = z3.Const(fresh_name("lcomp"), z3.SeqSort(sort_of(v.kind)))
+            ax = z3.And(z3.Length(R) == z3.Length(seq), z3.ForAll([i], z3.Implies(rng, R[i] == v.t)))
+            s2, lv = self.new_list(s.assume(ax), v.kind, R)
+            return [Out("ok", s2, lv)]
+        return self.bind(self.eval(g.iter, st), k)
+
     def e_JoinedStr(self, node, st):
         raise Unsupported("f-string")
 
